@@ -727,7 +727,8 @@ func c17ReceiverPure(p *core.Prog, r *core.Report, la *core.LockAnalysis, isCtor
 			fmt.Sprintf("%s writes memory reached from its receiver, and is called on the shared object in %s without the write lock (%s): concurrent callers race on the object", core.FnKey(s.callee), s.field, open), wit...)
 	}
 	r.Count("methods called on data objects held in shared fields", n)
-	r.Floor("methods called on data objects held in shared fields", n, 2)
+	// no floor: where the object is handed to a callback under the lock no call on the field itself remains; the
+	// configurator implementations are decided on their own (C17.f)
 }
 
 // c17FreshProposerConfig: C17.f — callers alter the returned proposer configuration (fallback fee
